@@ -264,7 +264,8 @@ def run(ctx):
               suppress_health_check=list(HealthCheck), phases=[Phase.generate])
     @given(st.sampled_from(THROWS5), st.sampled_from(['M', 'F', 'X']),
            st.one_of(st.text(max_size=6), st.from_regex(r'^[UVW]\d{1,3}$', fullmatch=True),
-                     st.sampled_from(['SEN', 'VET', 'MAS', 'U', 'V', 'v40', 'V 40', 'V4O', 'Z99', 'u13'])))
+                     st.sampled_from(['SEN', 'VET', 'MAS', 'U', 'V', 'v40', 'V 40', 'V4O', 'Z99', 'u13', 'V\u00b2', 'V\u2460',
+                                      'V\u0663\u0665', 'V' + '9' * 30, 'V' + '1' * 5000, 'V-40', 'V+40', 'V40 '])))
     def t_labels(e, gender, ag):
         case = {'kind': 'specific', 'event': e, 'gender': gender, 'group': ag}
         ctx.count()
@@ -282,6 +283,12 @@ def run(ctx):
         code = g.generate(codegen.hyp_draw(data))
         ag = data.draw(st.sampled_from(groups))
         gender = data.draw(st.sampled_from(['M', 'F']))
+        if code not in THROWS5 and data.draw(st.integers(0, 2)) == 0:
+            # other codes pass through unchanged WHATEVER the label and gender are (nothing about them needs reading)
+            ag = data.draw(st.one_of(st.text(max_size=6), st.sampled_from(
+                ['V\u00b2', 'V\u2460', '', None, 'V' + '9' * 30, 'XYZ', 'V-5', 'V4O', ' V40', 'U', 'V', 40, 'V35.5'])))
+            gender = data.draw(st.sampled_from(['M', 'F', 'X', 'm', None, '']))
+            ctx.label('non-throw-code-with-arbitrary-label')
         ctx.count()
         ctx.label('non-throw-code' if code not in THROWS5 else 'generic-throw')
         ctx.violations(examine_specific({'kind': 'specific', 'event': code, 'gender': gender, 'group': ag}))
